@@ -5,7 +5,7 @@ import random
 import numpy as np
 from harness import core, gen, diskimg, oracle
 from harness.sx import opt
-from harness.props import c01
+from harness.props import c01, c02
 from harness.props import taste_common as tc
 
 PID = 'C06'
@@ -29,7 +29,14 @@ def second_plotfile(rng, pf1, relation):
             shape = tuple(h - l + 1 for l, h in zip(lo, hi)) + (len(names),)
             lev.data.append(gen.gen_payload(rng, shape, pf1.meta['payload'], base))
             base += int(np.prod(shape))
-        rel = rng.choice(['same', 'same_files_permuted', 'different']) if relation == 'mixed' else relation
+        if relation == 'mixed':
+            rel = rng.choice(['same', 'same_files_permuted', 'different'])
+        elif relation == 'escalating':
+            # the mode needed grows with the level: plain, then same files in another order, then other files
+            n = len(pf2.levels)
+            rel = 'different' if lv == n - 1 and n > 1 else ('same_files_permuted' if lv >= n - 2 or n <= 2 else 'same')
+        else:
+            rel = relation
         if rel == 'same':
             pass
         elif rel == 'same_files_permuted':
@@ -147,7 +154,8 @@ def run_case(seed):
     pf1 = gen.gen_plotfile(rng, ndims=3, max_blocks=2, nfields=(1, 4), nlevels=rng.choice([1, 2, 2, 3]),
                            payload=rng.choice(['ints', 'random', 'special']))
     pf1.fields = [f.replace(' ', '_') for f in pf1.fields]
-    relation = rng.choice(['same', 'same_files_permuted', 'same_files_permuted', 'different', 'different', 'mixed', 'mixed', 'mixed'])
+    relation = rng.choice(['same', 'same_files_permuted', 'same_files_permuted', 'different', 'different', 'mixed', 'mixed', 'mixed',
+                           'escalating', 'escalating'])
     # geometry scales on which a comparison of PHYSICAL box bounds with a tolerance cannot tell two meshes apart
     # (a domain far from the origin with small cells; a nanometre-scale domain): index ranges must be compared
     scale = rng.choice(['unit', 'unit', 'far-origin', 'nano'])
@@ -231,6 +239,34 @@ def run_case(seed):
                 out['disagreements'].append(dict(desc, kind='model-vs-impl',
                                                  what='output directory differs from Writers.Combine.combine: ' + d,
                                                  correspondence='Writers.Combine.combine vs combine'))
+            # specification side: the abstract plotfiles of theorem C06_tool; their images must be the two
+            # directories on disk, the image of combine_spec the output of the tool model (and of the tool)
+            def pf_sx(pf):
+                return [c02.gheader_sx(pf), [[c02.lvboxes_sx(pf, lv), gen.level_to_sx(pf, lv), c02.cellh_sx(pf, lv)[3],
+                                              c02.cellh_sx(pf, lv)[4]] for lv in range(pf.nlevels)]]
+            st2, sp = model.call('combine_spec', [pf_sx(pf1), pf_sx(pf2), [x.encode() for x in n1], [x.encode() for x in n2]])
+            if st2 != 'ok':
+                out['disagreements'].append(dict(desc, kind='spec', what='the specification entry refuses the abstract plotfiles',
+                                                 correspondence='Plotfile.Abstract.pf_disk'))
+            else:
+                if k == 0:
+                    for which, im, sxi in (('first', img1, sp[0]), ('second', img2, sp[1])):
+                        d0 = oracle.same_image(im, oracle.image_from_sx(sxi))
+                        if d0:
+                            out['disagreements'].append(dict(desc, kind='encode',
+                                                             what=f'Abstract.pf_disk of the {which} abstract plotfile differs from the directory on disk: ' + d0,
+                                                             correspondence='Plotfile.Abstract.pf_disk vs the generator writer'))
+                spec_img = oracle.image_from_sx(sp[2][1]) if sp[2][0] == 0 else None
+                count(f"pure operation defined={spec_img is not None}")
+                if spec_img is None:
+                    out['disagreements'].append(dict(desc, kind='spec-vs-model', what='combine_pure is undefined on a pair the tool combined',
+                                                     correspondence='Writers.CombineSpec.combine_pure'))
+                else:
+                    dspec = 'the tool model refuses' if mimg is None else oracle.same_image(mimg, spec_img)
+                    if dspec:
+                        out['disagreements'].append(dict(desc, kind='spec-vs-model',
+                                                         what='theorem C06_tool instance: combine_tool(pf_disk pf1, pf_disk pf2) differs from pf_disk(combine_spec): ' + dspec,
+                                                         correspondence='Writers.CombineToolProofs.combine_refines'))
     return out
 
 
@@ -252,6 +288,10 @@ def run(tier, seed):
     rep.obligation('correspondence: Writers.Combine.combine = output directory of combine (binary files byte for byte, level headers '
                    'token for token, global header with floats by value)',
                    not any(v[0].get('kind') == 'model-vs-impl' for v in rep.violations))
+    rep.obligation('correspondence: Abstract.pf_disk of both abstract plotfiles = the directories on disk the implementation reads',
+                   not any(v[0].get('kind') in ('encode', 'spec') for v in rep.violations))
+    rep.obligation('theorem instance (C06_tool) on every combined pair: combine_tool (pf_disk pf1) (pf_disk pf2) = pf_disk (combine_spec ...), '
+                   'evaluated by the extracted code', not any(v[0].get('kind') == 'spec-vs-model' for v in rep.violations))
     return rep.finish(
         level_rule=("cases = pair of generated 3D plotfiles on a common mesh (1-3 levels, mixed boxes, int / random / special payloads) with "
                     "independently chosen binary layouts: identical / same files with permuted in-file order / unrelated files; x 2 "
